@@ -28,6 +28,10 @@ def run(tier):
             for k in range(1, K + 1):
                 args.append([s * 7919 + sl * 16 + k, K, nrand, maxops, sl, k])
     fw.run_harness_parallel(res, exe, args, timeout=3600, key_prefix="C11")
+    exe_p = build.build_harness("structs_bst", "plain", ["structs_bst.c"])
+    margs = [[s * 104729 + sl, 5, 100 if tier == "quick" else 1200, 300, sl, 5] for sl in range(4)]
+    fw.run_harness_parallel(res, exe_p, margs, timeout=3600, key_prefix="C11", wrapper=fw.MEMCHECK)
+    res.count("memcheck_processes", len(margs))
     res.evaluations = res.counters.get("permutation_cases", 0) + res.counters.get("random_programs", 0)
     fw.finish(res, RULE, ASSUME, extra_cov={"exhaustive_subspace": "all permutations of K<=%d keys x single removals x iterator-removal positions (all subsets for K<=6)" % K})
 
